@@ -105,6 +105,21 @@ class VirtualLoop(asyncio.SelectorEventLoop):
         self.horizon = None  # virtual time beyond which run_until_idle stops
         self.steps = 0
 
+    # -- name resolution: no executor thread; an address literal resolves to itself after `resolve_delay`
+    #    virtual seconds (None: at once), anything else fails like an unknown name
+    resolve_delay = None
+
+    async def getaddrinfo(self, host, port, *, family=0, type=0, proto=0, flags=0):
+        import socket as _socket
+
+        if self.resolve_delay:
+            await asyncio.sleep(self.resolve_delay)
+        try:
+            _socket.inet_pton(_socket.AF_INET6, host)
+        except (OSError, TypeError):
+            raise _socket.gaierror(_socket.EAI_NONAME, "Name or service not known")
+        return [(_socket.AF_INET6, _socket.SOCK_DGRAM, _socket.IPPROTO_UDP, "", (host, port or 0, 0, 0))]
+
     # -- self pipe: never needed, nothing writes to the loop from threads ----
     def _make_self_pipe(self):
         self._ssock = None
